@@ -779,6 +779,83 @@ def rule_pathidx(ctx, prop: str) -> RuleResult:
     res.ob(ok)
     if not ok:
         res.add(Finding("PATHIDX", IC, lf.lineno, lf.qualname, "prefix+attr", "_local_forward must leave alone every cursor that is not below the edited block: path prefix AND block attribute must both match"))
+    # _local_forward: fwd_node / fwd_block (which shift positions of ONE child block) are only applied
+    # to cursors established to be in that block: same parent path AND same block attribute
+    from ..boolform import atoms as bf_atoms, implies as bf_implies, to_form
+    from ..flow import always_exits
+
+    # boolean locals assigned once from a test are expanded:  same = a == b;  if same: ...
+    defs: Dict[str, List[ast.AST]] = {}
+    for n in lf.body_nodes():
+        if isinstance(n, ast.Assign) and len(n.targets) == 1 and isinstance(n.targets[0], ast.Name):
+            defs.setdefault(n.targets[0].id, []).append(n.value)
+
+    class _Expand(ast.NodeTransformer):
+        def visit_Name(self, node):
+            vs = defs.get(node.id, [])
+            if len(vs) == 1 and isinstance(vs[0], (ast.Compare, ast.BoolOp)):
+                return vs[0]
+            return node
+
+    _tf = to_form
+
+    def to_form(t):  # noqa: F811
+        import copy
+
+        return _tf(_Expand().visit(copy.deepcopy(t)))
+
+    def governing(call: ast.AST) -> tuple:
+        conj = []
+        x, p = call, parent(call)
+        while p is not None and p is not lf.node:
+            if isinstance(p, ast.If):
+                if any(x is st for st in p.body):
+                    conj.append(to_form(p.test))
+                elif any(x is st for st in p.orelse):
+                    conj.append(("not", to_form(p.test)))
+            for fld in ("body", "orelse"):
+                blk = getattr(p, fld, None)
+                if isinstance(blk, list) and any(x is st for st in blk):
+                    for st in blk:
+                        if st is x:
+                            break
+                        if isinstance(st, ast.If) and always_exits(st.body) and not st.orelse:
+                            conj.append(("not", to_form(st.test)))
+            x, p = p, parent(p)
+        # statements of the function body before the enclosing top-level statement
+        for st in lf.node.body:
+            if st is x:
+                break
+            if isinstance(st, ast.If) and always_exits(st.body) and not st.orelse:
+                conj.append(("not", to_form(st.test)))
+        return ("and", conj)
+
+    n_apps = 0
+    for n in lf.body_nodes():
+        if isinstance(n, ast.Call) and isinstance(n.func, ast.Name) and n.func.id in ("fwd_node", "fwd_block"):
+            n_apps += 1
+            res.instances += 1
+            res.nontrivial += 1
+            cond = governing(n)
+            ats = sorted(bf_atoms(cond))
+            attr_atoms = [a for a in ats if " <=> " in a and all("attr" in side for side in a.split(" <=> "))]
+            path_atoms = [a for a in ats if "edit_path" in a]
+            ok = False
+            for a in attr_atoms:
+                for pth in path_atoms:
+                    spec_p = ("cmp", pth, frozenset({"eq"})) if " <=> " in pth else ("atom", pth)
+                    good, _ = bf_implies(cond, ("and", [("cmp", a, frozenset({"eq"})), spec_p]))
+                    ok = ok or good
+            res.ob(ok)
+            res.sample(f"{lf.qualname}: `{ast.unparse(n)[:50]}` applied only under same-path and same-attribute: {ok}")
+            if not ok:
+                res.add(
+                    Finding("PATHIDX", IC, n.lineno, lf.qualname, n.func.id,
+                            f"`{n.func.id}` shifts positions of the edited child block, but here it is applied without establishing that the cursor lies in that block "
+                            f"(parent path equal to the edit path AND block attribute equal): a cursor into the sibling block (else-branch) is shifted / re-labelled and designates other statements")
+                )
+    if n_apps < 2:
+        raise AnalysisError("PATHIDX: fwd_node/fwd_block applications not found in _local_forward.forward")
     if n_sites < 4:
         raise AnalysisError(f"PATHIDX: expected >= 4 index-ordering sites in internal_cursors.py, found {n_sites}")
     res.floor = 5
